@@ -120,6 +120,10 @@ pub fn load_findings(path: &str) -> Vec<Finding> {
 
 /// glob with `*` only
 pub fn glob(pat: &str, s: &str) -> bool {
+    // "[*]" is the literal index placeholder of generic field paths, not a wildcard
+    let pat = pat.replace("[*]", "[\u{1}]");
+    let s = s.replace("[*]", "[\u{1}]");
+    let (pat, s) = (pat.as_str(), s.as_str());
     let parts: Vec<&str> = pat.split('*').collect();
     if parts.len() == 1 {
         return pat == s;
